@@ -1158,6 +1158,15 @@ class Interp:
             if op is not None:
                 yield from self.call_opaque(st, o, op, args, kwargs)
                 return
+            import types as _types
+            if isinstance(o, _types.MethodType):
+                try:
+                    op = self.opaque.get(o.__func__)        # a method declared opaque, called on a concrete receiver
+                except TypeError:
+                    op = None
+                if op is not None:
+                    yield from self.call_opaque(st, o.__func__, op, [const(o.__self__)] + list(args), kwargs)
+                    return
             rc = self.resolve_repo_callable(o)
             if rc is not None:
                 clo, selfarg = rc
